@@ -114,8 +114,28 @@ def run(res, proof):
                 if cur is not C:
                     res.violation('current-does-not-return-existing', desc, 'another object', 'the existing object')
                 del cur
-            # an inequivalent description is not reported as a duplicate by either API
+            # a REFUSED construction registers nothing in either model: the inequivalent complex is first requested under
+            # the taken names (both models refuse), then - in another rotation - under free names (both create it)
             other = gen.label(s, rng, ['a', 'b'])
+            if not (set(ref.rotations(other, s)) & set(rots)):
+                orots = ref.rotations(other, s)
+                r1 = outcome(lambda: dep.DSD_Complex(list(other), list(s), name='L'))
+                r2 = outcome(lambda: ComplexS([dom[x] if x != '+' else '+' for x in other], list(s), name='C'))
+                if r1[0] != 'err' or r2[0] != 'err':
+                    res.violation('name-clash-accepted', desc, '%s / %s' % (r1[0], r2[0]), 'both models refuse a different complex under a taken name')
+                del r1, r2
+                on, os_ = orots[1 % len(orots)]
+                d1 = outcome(lambda: dep.DSD_Complex(list(on), list(os_), name='L4'))
+                d2 = outcome(lambda: ComplexS([dom[x] if x != '+' else '+' for x in on], list(os_), name='C4'))
+                if d1[0] != 'ok' or d2[0] != 'ok':
+                    res.violation('refused-construction-left-a-trace', desc, 'after a refused request: legacy %s / current %s' % (d1[1] if d1[0] == 'err' else 'ok', d2[1] if d2[0] == 'err' else 'ok'),
+                                  'both create the complex (the refused request registered nothing)')
+                for nm in ('L4',):
+                    dep.DSD_Complex.NAMES.pop(nm, None)
+                if d1[0] == 'ok':
+                    dep.DSD_Complex.MEMORY.pop(d1[1].canonical_form, None) if hasattr(dep.DSD_Complex, 'MEMORY') else None
+                del d1, d2
+            # an inequivalent description is not reported as a duplicate by either API
             if not (set(ref.rotations(other, s)) & set(rots)):
                 d1 = outcome(lambda: dep.DSD_Complex(list(other), list(s), name='L3'))
                 d2 = outcome(lambda: ComplexS([dom[x] if x != '+' else '+' for x in other], list(s), name='C3'))
